@@ -280,10 +280,20 @@ Definition vdiv (I : interp) (a b : value) : value :=
 (* exponent: a non-negative integer constant (pySMT requires a constant exponent) *)
 Definition nat_of_real (e : R) : option nat :=
   let n := Z.to_nat (up e - 1) in if Req_EM_T (INR n) e then Some n else None.
-Definition vpow (a b : value) : value :=
+(* x ^ (-n) = 1 / x ^ n; for x = 0 this is a division by zero: like x / 0 it has SOME fixed value
+   (rdiv0 I 1), about which nothing is known *)
+Definition rpow_neg (I : interp) (x : R) (n : nat) : R :=
+  if Req_EM_T x 0 then rdiv0 I 1 else (/ (x ^ n))%R.
+(* pySMT types Pow as Real; the exponent is an integer (of sort Int, or an integral Real) *)
+Definition vpow (I : interp) (a b : value) : value :=
   match a, b with
-  | VInt x, VInt y => if (0 <=? y)%Z then VReal (IZR (x ^ y)) else VBool false   (* pySMT types Pow as Real *)
-  | VReal x, VReal y => match nat_of_real y with Some n => VReal (x ^ n) | None => VBool false end
+  | VInt x, VInt y =>
+      if (0 <=? y)%Z then VReal (IZR (x ^ y)) else VReal (rpow_neg I (IZR x) (Z.to_nat (- y)))
+  | VReal x, VReal y =>
+      match nat_of_real y with
+      | Some n => VReal (x ^ n)
+      | None => match nat_of_real (- y) with Some n => VReal (rpow_neg I x n) | None => VBool false end
+      end
   | _, _ => VBool false
   end.
 Definition vle (a b : value) : value :=
@@ -345,7 +355,7 @@ Definition op_sem (I : interp) (o : op) (args : list value) : value :=
   | OStore, [VArr f; i; v] => VArr (fun k => if key_eq_dec k (to_key i) then v else f k)
   | OArrayValue it, d :: assigns => VArr (arr_assign (fun k => if key_sortb k it then d else junk) assigns)
   | ODiv, [a; b] => vdiv I a b
-  | OPow, [a; b] => vpow a b
+  | OPow, [a; b] => vpow I a b
   | OBVToNat, [VBV _ x] => VInt x
   | _, _ => VBool false
   end.
